@@ -158,14 +158,14 @@ func genCron(r *rand.Rand, n int, tier string) []Case {
 		}
 		if scen == 6 {
 			// two generations of ONE recurring id running at once: r fires at S+900 and its callback runs
-			// until S+2200; it is replaced at S+1125 (the running entry is marked, the replacement is
-			// scheduled), the replacement fires at S+1900 and runs until S+3200; Rem at S+2025 meets both
-			// in the running list - the first marked already, the second to be marked - and r must not
-			// fire at S+2900 or S+3900
+			// until S+2700; it is replaced at S+1125 (the running entry is marked, the replacement is
+			// scheduled), the replacement fires at S+1900 and runs until S+3700; Rem at S+2325 (well after
+			// that firing, also on a loaded machine) meets both in the running list - the first marked
+			// already, the second to be marked - and r must not fire at S+2900 or S+3900
 			g = &cronGen{r: r, due: map[string]int64{}}
 			g.slots = r.Perm(10)
 			limit = 100
-			g.addRec(0, "r", 1300)
+			g.addRec(0, "r", 1800)
 		}
 		g.op(0, map[string]interface{}{"op": "snap"})
 		// ---- operations between firings
@@ -229,10 +229,10 @@ func genCron(r *rand.Rand, n int, tier string) []Case {
 				g.op(1325, map[string]interface{}{"op": "snap"})
 			}
 		case 6:
-			g.addRec(1125, "r", 1300)
+			g.addRec(1125, "r", 1800)
 			g.op(1275, map[string]interface{}{"op": "snap"})
-			g.rem(2025, "r")
-			g.op(2275, map[string]interface{}{"op": "snap"})
+			g.rem(2325, "r")
+			g.op(2475, map[string]interface{}{"op": "snap"})
 		default:
 			for _, at := range mids {
 				switch r.Intn(4) {
